@@ -130,10 +130,12 @@ const (
 	poisonIP    = "6.6.6.6"  // carried by Z's forged records
 	spoofID     = "6.6.6.7"  // carried by the wrong-ID datagram
 	spoofQ      = "6.6.6.8"  // carried by the wrong-question datagram
+	spoofTwoQ   = "6.6.6.12" // carried by the two-question datagram (victim's question first, the real one second)
 	spoofIDQ    = "6.6.6.9"  // wrong ID and wrong question
 	spoofTCP    = "6.6.6.10" // wrong ID on the TCP retry (after a truncated UDP reply)
 	trapServed  = "6.6.6.66" // whatever the adversary's second server (the trap) answers
 	trapIP      = "192.0.2.66"
+	trapIP6     = "2001:db8:66::66"
 	loopIP      = "127.0.0.1"
 )
 
@@ -282,6 +284,7 @@ func newWorldOnce(signed bool, moves []move) (*world, error) {
 		ex.Resp = m
 	})
 	n.MapGlue(trapIP, w.trap)
+	n.MapGlue(trapIP6, w.trap)
 	// a canary stands on the addresses that must never be dialled at all
 	if w.canary, err = authkit.StartServer("canary"); err != nil {
 		return nil, err
@@ -323,6 +326,14 @@ func (w *world) preDatagrams(pre string, req *dns.Msg) [][]byte {
 		m = new(dns.Msg)
 		m.SetReply(fake)
 		m.Answer = []dns.RR{mustRR(w.victim + " 300 IN A " + ip)}
+	case "twoq":
+		fake := new(dns.Msg)
+		fake.SetQuestion(w.victim, dns.TypeA)
+		fake.Id = req.Id
+		m = new(dns.Msg)
+		m.SetReply(fake)
+		m.Question = append(m.Question, q)
+		m.Answer = []dns.RR{mustRR(w.victim + " 300 IN A " + spoofTwoQ)}
 	default:
 		return nil
 	}
@@ -421,6 +432,14 @@ func (w *world) tamper(ex *authkit.Exchange, k int, m move) {
 			}
 			r.Ns = dropSigs(r.Ns, dns.TypeNS)
 			glue = []dns.RR{mustRR(w.nsBank + " 300 IN A " + trapIP)}
+		case "out6": // the same with an IPv6 "glue" address (IPv6 access is switched on for these scripts)
+			for _, rr := range r.Ns {
+				if ns, ok := rr.(*dns.NS); ok {
+					ns.Ns = w.nsBank
+				}
+			}
+			r.Ns = dropSigs(r.Ns, dns.TypeNS)
+			glue = []dns.RR{mustRR(w.nsBank + " 300 IN AAAA " + trapIP6)}
 		case "loop":
 			glue = []dns.RR{mustRR("ns." + w.subZone(k) + " 300 IN A " + loopIP)}
 		case "local":
@@ -480,7 +499,7 @@ func (w *world) symbolOf(ip string) string {
 		return "t_www"
 	case poisonIP, trapServed:
 		return "poison"
-	case spoofID, spoofQ, spoofIDQ, spoofTCP:
+	case spoofID, spoofQ, spoofIDQ, spoofTCP, spoofTwoQ:
 		return "spoof"
 	}
 	for i := range w.moves {
@@ -630,6 +649,8 @@ func spoofMarks(r *dns.Msg) []string {
 					out = append(out, "wrongidq")
 				case spoofTCP:
 					out = append(out, "tcpwrongid")
+				case spoofTwoQ:
+					out = append(out, "twoq")
 				}
 			}
 		}
@@ -757,6 +778,11 @@ func (rn *runner) runScript(sc scriptIn, variant string, minLevel int) error {
 		Mutate: func(c *config.Config) {
 			c.QnameMinLevel = minLevel
 			c.CacheSize = 1024
+			for _, mv := range sc.Script {
+				if mv.Glue == "out6" {
+					c.IPv6Access = true
+				}
+			}
 		}})
 	defer stopServer(srv)
 
@@ -826,7 +852,7 @@ func (rn *runner) runScript(sc scriptIn, variant string, minLevel int) error {
 		if cq > seenCanaryQ {
 			violate("unroutable-glue-dialled|canary|"+culprit, "the canary standing on the loopback / local-interface address received a query")
 		}
-		if has(trapIP) || tq > seenTrapQ {
+		if has(trapIP) || has(trapIP6) || tq > seenTrapQ {
 			violate("forbidden-server-used|"+culprit,
 				fmt.Sprintf("the resolver contacted %s, an address it could learn only from out-of-bailiwick glue or from a referral it must reject (trap got %d queries)", trapIP, tq-seenTrapQ))
 		}
